@@ -244,3 +244,83 @@ func VerifSVGForeignObject(n int) {
 	vAssert(rsIndex(w.buf, ">"+inner+"</foreignObject>") >= 0, "foreignObject content copied verbatim")
 	vReach("end")
 }
+
+// SVG text layout (SVG 1.1 10.15, default xml:space; SVG 2 white-space:normal agrees when there are no newlines): the
+// character data of a text element and its tspan / textPath / a descendants is concatenated in document order, tabs
+// become spaces, leading and trailing spaces are stripped and runs of spaces collapse to one. A space next to a child
+// element is therefore rendered.
+var verifSVGTextUnits = []string{"a", " ", "  ", "<tspan>b</tspan>", "<tspan> b</tspan>", "<tspan>b </tspan>", "c", "\t", "<tspan/>", "<a>d</a>"}
+
+func rsRendered(doc []byte) []byte {
+	var chars []byte
+	for i := 0; i < len(doc); i++ {
+		if doc[i] == '<' {
+			for i < len(doc) && doc[i] != '>' {
+				i++
+			}
+			continue
+		}
+		c := doc[i]
+		if c == '\t' {
+			c = ' '
+		}
+		chars = append(chars, c)
+	}
+	var out []byte
+	for _, c := range chars {
+		if c == ' ' && (len(out) == 0 || out[len(out)-1] == ' ') {
+			continue
+		}
+		out = append(out, c)
+	}
+	if len(out) > 0 && out[len(out)-1] == ' ' {
+		out = out[:len(out)-1]
+	}
+	return out
+}
+
+// VerifSVGTextSpaces (C05): <svg><text>U1..Un</text></svg>: the rendered string is the same.
+func VerifSVGTextSpaces(n int) {
+	in := []byte("<svg><text>")
+	for i := 0; i < n; i++ {
+		in = append(in, verifSVGTextUnits[vChoice("u"+string(rune('0'+i)), len(verifSVGTextUnits))]...)
+	}
+	in = append(in, "</text></svg>"...)
+	want := rsRendered(in)
+	w := &vWriter{}
+	err := (&Minifier{}).Minify(minify.New(), w, &vReader{b: append(make([]byte, 0, len(in)+1), in...)}, nil)
+	vReach("after-call")
+	vOutput("out", w.buf)
+	vAssert(err == nil, "accepted")
+	got := rsRendered(w.buf)
+	vAssert(string(got) == string(want), "same rendered text: "+string(in)+" => "+string(w.buf))
+	vReach("end")
+}
+
+// attributes that hold names, references or free text (SVG 1.1 / 2 attribute index: <name>, <IRI>, <anything>,
+// language tags): their value is never a number, whatever it looks like
+var verifSVGTextAttrNames = []string{"id", "class", "href", "xlink:href", "xlink:title", "xml:lang", "font-family", "data-x", "aria-label", "systemLanguage", "name", "target", "role"}
+var verifSVGNumberish = []string{"5PX", "1.50", "10.0", "1E2", "0px", "+5", "007", ".50em", "1e3", "-0", "100%", "5.0E0Px"}
+
+// VerifSVGTextAttrs (C05): <svg><g ATTR="V"/></svg> for text-valued attributes and values that look like numbers or
+// dimensions: the value is kept byte for byte.
+func VerifSVGTextAttrs(n int) {
+	at := verifSVGTextAttrNames[vChoice("attr", len(verifSVGTextAttrNames))]
+	v := verifSVGNumberish[vChoice("val", len(verifSVGNumberish))]
+	el := []string{"g", "a", "text", "use"}[vChoice("el", 4)]
+	in := []byte("<svg><" + el + " " + at + "=\"" + v + "\"/></svg>")
+	w := &vWriter{}
+	err := (&Minifier{}).Minify(minify.New(), w, &vReader{b: append(make([]byte, 0, len(in)+1), in...)}, nil)
+	vReach("after-call")
+	vOutput("out", w.buf)
+	vAssert(err == nil, "accepted")
+	want := at + "=\"" + v + "\""
+	found := false
+	for i := 0; i+len(want) <= len(w.buf); i++ {
+		if string(w.buf[i:i+len(want)]) == want {
+			found = true
+		}
+	}
+	vAssert(found, "text-valued attribute kept byte for byte: "+string(in)+" => "+string(w.buf))
+	vReach("end")
+}
